@@ -4,7 +4,7 @@ import numpy as np
 from ..runner import Acc, HarnessError
 from ..refmodel import Fmt, overflow_code
 from .. import alphabet as al
-from ..common import Fxp, codes, flags, fmt_of, reset_class_state, obs, build
+from ..common import AGED, Fxp, codes, flags, fmt_of, reset_class_state, obs, build
 
 ID = 'C14'
 RULE = ('cases = (format, shifting mode, overflow mode, direction, shift count, code or code array); expand: value(x<<n) == value(x)*2^n and '
@@ -182,6 +182,10 @@ def run_shard(sh):
                             judge(acc, f, mode, ovf, d, n, cs, 'S')
                             judge(acc, f, mode, ovf, d, n, cs, 'S', 'value')
                             judge(acc, f, mode, ovf, d, n, cs, 'S', 'raw', True)
+                            if ovf == 'saturate' and n in (0, 1, nw):
+                                for how in (AGED if nw <= 2 else (AGED[(n + nf + MODES.index(mode)) % len(AGED)],)):
+                                    judge(acc, f, mode, ovf, d, n, cs, 'S', how)       # operand reached through a history
+                                    judge(acc, f, mode, ovf, d, n, cs[0], 'S', how)
                             if ovf == 'saturate' and nw >= 3:
                                 judge_history(acc, f, mode, d, n, 'S')
                             for c in cs:
@@ -205,6 +209,18 @@ def run_shard(sh):
                             for c in (f.lo, f.hi, -1 if s else 1, cs[len(cs) // 2]):
                                 judge(acc, f, mode, 'wrap', d, n, c, 'B')
                             judge(acc, f, mode, 'saturate', d, n, [f.lo, 1 << (nw // 2)], 'B')
+                # single elements (an array's largest element decides the growth for all the others): every power of two, its
+                # neighbours and the extremes x every shift count the domain allows
+                singles = sorted({c for k in range(nw) for c in ((1 << k) - 1, 1 << k, (1 << k) + 1, -(1 << k), -(1 << k) - 1)
+                                  if f.lo <= c <= f.hi} | {f.lo, f.hi})
+                for mode in MODES:
+                    for d in ('<<', '>>'):
+                        for n in range(0, 62 - nw + 1):
+                            if mode != 'expand' and n not in (0, 1, nw - 1, nw, 62 - nw):
+                                continue
+                            for c in singles:
+                                judge(acc, f, mode, 'saturate', d, n, c, 'B1')
+                            judge(acc, f, mode, 'saturate', d, n, [0, 1 << (nw - 2 if s and nw > 1 else nw - 1)], 'B1')
     return acc
 
 
